@@ -412,43 +412,67 @@ func Validate(profile CertificateProfile, content CertificateContent) bool {
 		for i, j := 0, len(subject)-1; i < j; i, j = i+1, j-1 {
 			subject[i], subject[j] = subject[j], subject[i]
 		}
-		wantAttribute := 0
-		haveAttribute := 0
-		for {
-			if wantAttribute >= len(profile.SubjectAttributes.Attributes) ||
-				haveAttribute >= len(subject) {
-				break
-			}
-
-			currentAttribute := profile.SubjectAttributes.Attributes[wantAttribute].Attribute
-			wantAt, err := GetRdnAttributeOid(currentAttribute)
+		//resolve the profile's attribute names first
+		want := make([]asn1.ObjectIdentifier, len(profile.SubjectAttributes.Attributes))
+		for i, attr := range profile.SubjectAttributes.Attributes {
+			wantAt, err := GetRdnAttributeOid(attr.Attribute)
 			if err != nil {
 				//do we have a custom oid?
-				oid, err := cert.OidFromString(currentAttribute)
+				oid, err := cert.OidFromString(attr.Attribute)
 				if err != nil {
 					logging.Warningf("profile violation: can't resolve %v to a known attribute OID",
-						currentAttribute)
+						attr.Attribute)
 					return false
 				}
 				wantAt = oid
 			}
+			want[i] = wantAt
+		}
 
-			if wantAt.Equal(subject[haveAttribute][0].Type) {
-				wantAttribute++
-				haveAttribute++
-			} else {
-				if profile.SubjectAttributes.AllowOther {
-					haveAttribute++
-				} else {
-					logging.Warningf("profile violation: expected %v at this position, but got %v and allowOther is false",
-						wantAt, subject[haveAttribute][0].Type)
+		if profile.SubjectAttributes.AllowOther {
+			//other attributes may appear anywhere, so all we can demand
+			//is that every non-optional attribute is present
+			for i, attr := range profile.SubjectAttributes.Attributes {
+				if attr.Optional {
+					continue
+				}
+				found := false
+				for _, rdn := range subject {
+					if len(rdn) > 0 && want[i].Equal(rdn[0].Type) {
+						found = true
+						break
+					}
+				}
+				if !found {
+					logging.Warningf("profile violation: non-optional attribute %v is missing", want[i])
 					return false
 				}
 			}
+			return true
 		}
 
-		if haveAttribute < len(content.Subject) && !profile.SubjectAttributes.AllowOther {
-			logging.Warningf("profile violation: provided number of attributes larger than specified in profile while allowOther is false")
+		//allowOther is false: the subject must be an in-order selection of the
+		//profile's attributes that leaves out optional ones only.
+		//matches[i][j] tells whether subject[i:] can be matched against want[j:]
+		n, m := len(subject), len(want)
+		matches := make([][]bool, n+1)
+		for i := range matches {
+			matches[i] = make([]bool, m+1)
+		}
+		matches[n][m] = true
+		for j := m - 1; j >= 0; j-- {
+			optional := profile.SubjectAttributes.Attributes[j].Optional
+			for i := n; i >= 0; i-- {
+				if optional && matches[i][j+1] {
+					matches[i][j] = true
+				} else if i < n && len(subject[i]) > 0 &&
+					want[j].Equal(subject[i][0].Type) && matches[i+1][j+1] {
+					matches[i][j] = true
+				}
+			}
+		}
+		if !matches[0][0] {
+			logging.Warningf("profile violation: subject does not list the profile's attributes in order (only optional ones may be left out) and allowOther is false")
 			return false
 		}
 	}
